@@ -927,6 +927,20 @@ pub fn run(rng: &mut Rng, n: usize, rep: &mut Report) {
                     }
                     w2.set_marginfi_account(&key, &a);
                     let Some(ixn) = s.instruction(&Act::Purge { u, b }) else { continue };
+                    // … and the same purge while the sunset is NOT complete (flag allowed only / no flag at all): the risk admin has
+                    //     no business with a lender's balance before the bank's debts are discharged
+                    for early in [marginfi_type_crate::constants::TOKENLESS_REPAYMENTS_ALLOWED, 0u64] {
+                        let mut w3 = w2.clone();
+                        let mut bk3 = w3.bank(&h.bank);
+                        bk3.flags &= !(marginfi_type_crate::constants::TOKENLESS_REPAYMENTS_ALLOWED | marginfi_type_crate::constants::TOKENLESS_REPAYMENTS_COMPLETE);
+                        bk3.flags |= early;
+                        w3.set_bank(&h.bank, &bk3);
+                        let r3 = w3.exec(&ixn);
+                        rep.bump(if r3.is_ok() { "early_purge_accepted" } else { "early_purge_refused" });
+                        if r3.is_ok() {
+                            rep.fail(format!("C12 purge-before-completion: the risk admin's purge_deleverage_balance wiped a lender's balance of {} deposit shares in a bank whose token-less repayments are not flagged complete (bank flags {:#x})", fx(bal0.asset_shares), bk3.flags));
+                        }
+                    }
                     let r = w2.exec(&ixn);
                     let val = (big(shares) * big(lsv)) >> 48u32;
                     rep.bump(if r.is_ok() { "purge_probe_accepted" } else { "purge_probe_refused" });
